@@ -2500,7 +2500,14 @@ func (p *Parser) evaluateArguments(typeName string, name string, params []Variab
 		}
 		args = append(args, expr)
 
-		if !ignoreParams {
+		if ignoreParams {
+			// A program gets texts, therefore only single non-slice values can be passed (no slice, no call without or with several return values).
+			argType := expr.ValueType()
+
+			if argType.IsSlice() || !(argType.IsString() || argType.IsInt() || argType.IsBool()) {
+				return nil, p.expectedError(fmt.Sprintf("string, int or bool as argument but got %s", argType.String()), argToken)
+			}
+		} else {
 			argsLength := len(args)
 
 			// Make sure arguments have not been exceeded.
